@@ -126,14 +126,17 @@ pub fn run_batch(cfg: &BatchCfg) -> BatchResult {
                 let current = Arc::new(AtomicU64::new(u64::MAX));
                 let done = Arc::new(AtomicBool::new(false));
                 let hung = Arc::new(AtomicBool::new(false));
+                let minimising = Arc::new(AtomicBool::new(false));
                 // watchdog: CPU time consumed while the same run is in flight
                 let wd = {
                     let current = current.clone();
                     let done = done.clone();
                     let hung = hung.clone();
+                    let minimising = minimising.clone();
                     let budget_ticks = cfg.hang_cpu_s * 100;
                     std::thread::spawn(move || {
                         let mut last_index = u64::MAX;
+                        let mut last_shrinking = false;
                         let mut base = 0u64;
                         while !done.load(Ordering::SeqCst) {
                             std::thread::sleep(Duration::from_millis(250));
@@ -142,10 +145,12 @@ pub fn run_batch(cfg: &BatchCfg) -> BatchResult {
                                 Some(c) => c,
                                 None => continue,
                             };
-                            if idx != last_index {
+                            let shrinking = minimising.load(Ordering::SeqCst);
+                            if idx != last_index || shrinking != last_shrinking {
                                 last_index = idx;
+                                last_shrinking = shrinking;
                                 base = cpu;
-                            } else if idx != u64::MAX && cpu.saturating_sub(base) > budget_ticks {
+                            } else if idx != u64::MAX && cpu.saturating_sub(base) > if shrinking { budget_ticks * 30 } else { budget_ticks } {
                                 hung.store(true, Ordering::SeqCst);
                                 unsafe_kill(pid);
                                 return;
@@ -166,7 +171,12 @@ pub fn run_batch(cfg: &BatchCfg) -> BatchResult {
                         "B" => {
                             if let Ok(i) = rest.parse::<u64>() {
                                 current.store(i, Ordering::SeqCst);
+                                minimising.store(false, Ordering::SeqCst);
                             }
+                        }
+                        "M" => {
+                            // the worker is shrinking a finding it already reported: a different budget applies
+                            minimising.store(true, Ordering::SeqCst);
                         }
                         "D" => {
                             let f: Vec<&str> = rest.split_whitespace().collect();
@@ -182,9 +192,15 @@ pub fn run_batch(cfg: &BatchCfg) -> BatchResult {
                                 let mut r = shared.result.lock().unwrap();
                                 match r.violations.get_mut(&id) {
                                     Some((old, n)) => {
-                                        *n += 1;
-                                        if doc.u64_of("index") < old.u64_of("index") {
+                                        let same_run = doc.u64_of("index") == old.u64_of("index");
+                                        if same_run && doc.bool_of("minimised") && !old.bool_of("minimised") {
+                                            // the shrunken version of a finding that was reported a moment ago
                                             *old = doc;
+                                        } else {
+                                            *n += 1;
+                                            if doc.u64_of("index") < old.u64_of("index") {
+                                                *old = doc;
+                                            }
                                         }
                                     }
                                     None => {
@@ -223,6 +239,16 @@ pub fn run_batch(cfg: &BatchCfg) -> BatchResult {
                     eprintln!("sylt-sim: worker for slot {} died before its first run: {:?}", slot, status);
                     shared.result.lock().unwrap().stats.inc("harness.worker_failed_to_start");
                     break;
+                }
+                if minimising.load(Ordering::SeqCst) {
+                    // the process died (or was killed) while shrinking an already reported finding: the
+                    // finding stays as it was reported; this is not a hang or crash of the run itself
+                    let mut r = shared.result.lock().unwrap();
+                    r.worker_restarts += 1;
+                    r.stats.inc("harness.worker_lost_while_minimising");
+                    drop(r);
+                    next = idx + stride;
+                    continue;
                 }
                 let (clause, class, detail) = if hung.load(Ordering::SeqCst) {
                     ("hang".to_string(), "cpu-budget".to_string(), format!("run {} consumed more than {} CPU seconds and was killed", idx, cfg.hang_cpu_s))
